@@ -123,6 +123,9 @@ pub struct FaultPlan {
     pub unreadable_dirs: BTreeSet<String>,
     /// files that fail with a given kind
     pub unreadable_files: BTreeMap<(String, String), io::ErrorKind>,
+    /// model evaluation only: this entry is unreadable at its n-th consultation (a single transient fault on an
+    /// entry that one load reads several times); `.2` counts the consultations
+    pub model_unreadable_nth: Option<((String, String), u32, u32)>,
 }
 
 pub struct Shared {
